@@ -144,16 +144,76 @@ pub fn run(ctx: &Ctx) -> i32 {
         }
         acc.outcomes.insert(hash64(&(u.map(f32::to_bits), gwi.map(f32::to_bits), gshwi.map(f32::to_bits), ind.K_data.K.to_bits(), q.Q_soljul.to_bits())));
     });
+    // --- ordered pairs of constructions in one model: what is reported for one construction must not depend on the
+    // other one, also when they share a glazing (present, nil or dangling) or a frame
+    let pff = [0.0f32, 0.25];
+    let pdu = [0.0f32, 10.0];
+    let pg = Grid::new(&[("f_f", pff.len()), ("delta_u", pdu.len()), ("g_glshwi", gsh.len()), ("glass_ref{gl,gl2,nil,dangling}", 4), ("frame_ref{fr,nil}", 2)]);
+    let np = pg.size() * pg.size();
+    let gl_u = [1.0f32, 3.3];
+    let gl_g = [0.5f32, 0.85];
+    let fr_u = 2.2f32;
+    let expect = |t: &[usize]| -> (Option<f64>, f64, f64, f64) {
+        let (f_f, d_u, g_sh, gref, fref) = (pff[t[0]] as f64, pdu[t[1]] as f64, gsh[t[2]], t[3], t[4]);
+        let u = if gref < 2 && fref == 0 { Some((1.0 + d_u / 100.0) * (f_f * fr_u as f64 + (1.0 - f_f) * gl_u[gref] as f64)) } else { None };
+        let gwi = if gref < 2 { 0.9 * gl_g[gref] as f64 } else { 0.77 };
+        let gshwi = g_sh.map(|v| v as f64).unwrap_or(gwi);
+        (u, gwi, gshwi, f_f)
+    };
+    let accs2 = par_fold(np, |i, acc: &mut Acc| {
+        let (ta, tb) = (pg.unrank(i / pg.size()), pg.unrank(i % pg.size()));
+        let mut m = base.clone();
+        m.cons.glasses = vec![glass("gl", gl_u[0], gl_g[0]), glass("gl2", gl_u[1], gl_g[1])];
+        m.cons.frames = vec![frame("fr", fr_u)];
+        let mk = |name: &str, t: &[usize]| {
+            let gid = [uid("gl"), uid("gl2"), nil(), uid("dangling-glass")][t[3]];
+            let fid = [uid("fr"), nil()][t[4]];
+            wincons(name, gid, fid, pff[t[0]], pdu[t[1]], gsh[t[2]], 27.0)
+        };
+        m.cons.wincons = vec![mk("winc", &ta), mk("winc2", &tb)];
+        m.windows.push(window("W2", uid("winc2"), uid("S1_E"), Some([1.0, 1.0]), 2.0, 1.5, 0.0));
+        ctx.eval(1);
+        let case = || json!({"part": "pair", "first": pg.describe(&ta), "second": pg.describe(&tb), "wincons": serde_json::to_value(&m.cons.wincons).unwrap()});
+        if i == np / 3 {
+            ctx.sample(case());
+        }
+        let ind = m.energy_indicators();
+        for (name, t) in [("winc", &ta), ("winc2", &tb)] {
+            let (u, gwi, gshwi, _) = expect(t);
+            let Some(wp) = ind.props.wincons.get(&uid(name)) else {
+                ctx.violation("props.wincons:missing-entry", &format!("no entry for {}", name), case());
+                continue;
+            };
+            let u_ok = match (wp.u_value, u) {
+                (None, None) => true,
+                (Some(a), Some(b)) => (a as f64 - b).abs() <= 0.00501 + 1e-5 * b,
+                _ => false,
+            };
+            if !u_ok {
+                ctx.violation("props.wincons.u_value:pair", &format!("{}: props U={:?} expected {:?}", name, wp.u_value, u), case());
+            }
+            if (wp.g_glwi as f64 - gwi).abs() > 0.00501 {
+                ctx.violation("props.wincons.g_glwi:pair", &format!("{}: props g_glwi={} expected {:.3}", name, wp.g_glwi, gwi), case());
+            }
+            if (wp.g_glshwi as f64 - gshwi).abs() > 0.00501 {
+                ctx.violation("props.wincons.g_glshwi:pair", &format!("{}: props g_glshwi={} expected {:.3}", name, wp.g_glshwi, gshwi), case());
+            }
+        }
+        if ta[3] < 2 && ta[4] == 0 && tb[3] < 2 && tb[4] == 0 {
+            acc.nontriv += 1;
+        }
+        acc.outcomes.insert(hash64(&(ind.K_data.K.to_bits(), ind.q_soljul_data.Q_soljul.to_bits())));
+    });
     let mut nt = 0;
-    for a in &accs {
+    for a in accs.iter().chain(accs2.iter()) {
         ctx.outcome_merge(&a.outcomes);
         nt += a.nontriv;
     }
     ctx.nontriv(nt);
     ctx.finish(
         "model_checking",
-        "full Cartesian product f_f{0,.1,.25,.5,1} x dU{0,10,50} x Uglass{.6,1,3.3,5.7} x Uframe{.8,2.2,5.7,7} x g_n{.2,.5,.85} x g_glshwi{None,.05,.337} x glass ref{ok,nil,dangling} x frame ref{ok,nil,dangling}, each construction observed directly (WinCons::u_value/g_glwi/g_glshwi) and inside a one-window box model through props.wincons, K_data.windows and q_soljul_data; tuples are distinct by construction; non-trivial = glazing and frame both resolve (formula path)",
+        "full Cartesian product f_f{0,.1,.25,.5,1} x dU{0,10,50} x Uglass{.6,1,3.3,5.7} x Uframe{.8,2.2,5.7,7} x g_n{.2,.5,.85} x g_glshwi{None,.05,.337} x glass ref{ok,nil,dangling} x frame ref{ok,nil,dangling}, each construction observed directly (WinCons::u_value/g_glwi/g_glshwi) and inside a one-window box model through props.wincons, K_data.windows and q_soljul_data; tuples are distinct by construction; all ordered pairs of a 96-construction alphabet (f_f{0,.25} x dU{0,10} x g_glshwi(3) x glazing{gl,gl2,nil,dangling} x frame{fr,nil}) as two constructions of one model with one window each, every props.wincons entry against the formula for that construction alone; non-trivial = glazing and frame both resolve (formula path)",
         true,
-        json!({"space_size": n}),
+        json!({"space_size": n, "pairs": np}),
     )
 }
